@@ -176,7 +176,23 @@ def stmt_leg(ctx, n):
                 ctx.fail("stmt_roundtrip", dict(inp, out_text=bytes.fromhex(r["out"]).decode("utf-8", "replace")), None,
                          "real Parse(Print(tree)) differs from tree on a fragment program")
         elif r["mode"] in ("default", "xcall") and not r.get("idem") and ctx.pid == "C02":
-            ctx.fail("stmt_idempotent", dict(inp, out_text=bytes.fromhex(r["out"]).decode("utf-8", "replace")), None,
+            # a real idempotence failure on a fragment program: attribute it with the SAME class predicates as the
+            # whole-language C02 search (hxfmt classifier, via the c02 harness' show mode); unclassified -> violation
+            klass = None
+            try:
+                import tempfile
+                c02bin = ctx.go_build("c02")
+                with tempfile.NamedTemporaryFile(prefix="c02stmt_", suffix=".sh") as tf:
+                    tf.write(bytes.fromhex(r["src"]))
+                    tf.flush()
+                    rc2, rows2, _ = ctx.jsonl([c02bin, "show", "-in", tf.name, "bash", r["opts"]], timeout=120)
+                for row in rows2:
+                    for fl in row.get("failures") or []:
+                        if fl.get("prop") == "C02" and fl.get("clause") == "idempotent" and fl.get("class"):
+                            klass = fl["class"]
+            except Exception:
+                klass = None
+            ctx.fail("stmt_idempotent", dict(inp, out_text=bytes.fromhex(r["out"]).decode("utf-8", "replace")), klass,
                      "real Print(Parse(Print(tree))) differs from Print(tree) on a fragment program (default mode)")
         else:
             good.append(r)
